@@ -74,7 +74,7 @@ STUB = ["user operator classes (generated with type(); every product is a record
         "the reference model (dense batched matrices)"]
 
 DTYPES = ["float64", "float32", "complex128"]
-BATCHES = [(), (2,), (1,), (2, 1), (1, 2), (3,), (2, 3)]
+BATCHES = [(), (2,), (1,), (2, 1), (1, 2), (3,), (2, 3), (0,)]
 PRODUCTS = ["mv", "mm", "rmv", "rmm", "fullmatrix"]
 OPTIONAL = ["_rmv", "_mm", "_rmm", "_fullmatrix", "_getparamnames"]
 
@@ -104,7 +104,8 @@ def draw_program(cs, cfg):
                 defines.append(m)
         inherited = set(classes[parent]["all"]) if parent >= 0 else set()
         allm = sorted(inherited | set(defines))
-        classes.append({"parent": parent, "defines": defines, "has_mv": "_mv" in allm, "all": allm})
+        classes.append({"parent": parent, "defines": defines, "has_mv": "_mv" in allm, "all": allm,
+                        "shape_list": cs.bool("shape_as_list", 1, 3)})
     P["classes"] = classes
     inst = [i for i, c in enumerate(classes) if c["has_mv"]]
     abst = [i for i, c in enumerate(classes) if not c["has_mv"]]
@@ -114,10 +115,11 @@ def draw_program(cs, cfg):
     nops = cs.randint(3, cfg["max_ops"], "nops")
 
     def draw_mat(square=None, herm=False):
-        b = BATCHES[cs.weighted([6, 2, 1, 1, 1, 1, 1], "batch")]
+        b = BATCHES[cs.weighted([12, 4, 2, 2, 2, 2, 2, 1], "batch")]
         p = cs.randint(1, 3, "p")
         q = p if (square or herm) else (cs.randint(1, 3, "q") if not cs.bool("sq", 1, 2) else p)
-        return {"batch": list(b), "p": p, "q": q, "seed": cs.draw(1000, "mseed"), "herm": bool(herm)}
+        return {"batch": list(b), "p": p, "q": q, "seed": cs.draw(1000, "mseed"), "herm": bool(herm),
+                "scale": [1.0, 1e-9, 1e5][cs.weighted([6, 1, 1], "mscale")]}
 
     for step in range(nops):
         if not pool:
@@ -150,6 +152,8 @@ def draw_program(cs, cfg):
             herm = cs.bool("densesym", 1, 3)
             m = draw_mat(herm=herm)
             valid = not (arg is True and not herm and not (m["p"] == 1 and m["q"] == 1 and P["dtype"] != "complex128"))
+            if arg is True and 0 in m["batch"] and m["p"] == m["q"]:
+                valid = True        # an empty batch of matrices is (vacuously) Hermitian
             if arg is True and m["p"] != m["q"]:
                 valid = False
             if arg is False and herm:
@@ -232,7 +236,7 @@ def draw_program(cs, cfg):
             if prod != "fullmatrix":
                 inner = a["q"] if prod in ("mv", "mm") else a["p"]
                 bad = cs.weighted([10, 1, 1], "xbad")       # 0 valid, 1 wrong inner dimension, 2 batch mismatch
-                xb = BATCHES[cs.weighted([5, 2, 1, 1, 1, 1, 1], "xbatch")]
+                xb = BATCHES[cs.weighted([10, 4, 2, 2, 2, 2, 2, 1], "xbatch")]
                 if cs.bool("extra_lead", 1, 6):
                     xb = (2,) + tuple(xb) if len(xb) < 2 else xb
                 if bad == 1:
@@ -306,7 +310,8 @@ def _rec(self, name):
 
 def _u_init(self, mat, is_hermitian=False):
     from xitorch import LinearOperator
-    LinearOperator.__init__(self, shape=mat.shape, is_hermitian=is_hermitian, dtype=mat.dtype, device=mat.device)
+    shape = list(mat.shape) if getattr(type(self), "_shape_as_list", False) else mat.shape
+    LinearOperator.__init__(self, shape=shape, is_hermitian=is_hermitian, dtype=mat.dtype, device=mat.device)
     self.mat = mat
 
 
@@ -351,6 +356,7 @@ def build_classes(P):
         ns = {m: UMETHODS[m] for m in c["defines"]}
         if c["parent"] < 0:
             ns["__init__"] = _u_init
+        ns["_shape_as_list"] = bool(c.get("shape_list"))
         out.append(type("U%d" % i, (parent,), ns))
     return out
 
@@ -377,7 +383,7 @@ def gen_matrix(m, dtype):
             x = x + torch.triu(torch.ones(m["p"], m["q"], dtype=dt), diagonal=1) * 3
         elif m["p"] == m["q"] == 1 and dt.is_complex:
             x = x + 2j
-    return x
+    return x * m.get("scale", 1.0)
 
 
 def gen_operand(shape, seed, dtype):
@@ -467,11 +473,12 @@ def rtol_of(dtype):
     return 2e-4 if dtype == "float32" else 1e-9
 
 
-def close(res, ref, dtype):
+def close(res, ref, dtype, scale=None):
     if tuple(res.shape) != tuple(ref.shape):
         return False, "shape %s, model %s" % (tuple(res.shape), tuple(ref.shape))
     rt = rtol_of(dtype)
-    scale = max(1.0, float(ref.abs().max()) if ref.numel() else 1.0)
+    if scale is None:
+        scale = max(1.0, float(ref.abs().max()) if ref.numel() else 1.0)
     if res.dtype != ref.dtype:
         return False, "dtype %s, model %s" % (res.dtype, ref.dtype)
     if not torch.allclose(res, ref, rtol=rt, atol=rt * scale):
@@ -496,12 +503,15 @@ def execute(P, pre):
             if "ACCEPTED" in s or "UNEXPECTED" in s:
                 viol.append({"inv": "prelude_" + s.split(":")[0], "op": "prelude", "detail": "prelude step: %s" % s})
         pool = []     # (operator, dense model matrix, description)
+        absp = []     # entry-wise magnitude bound of every model matrix (|A|+|B| for sums, |A||B| for products):
+        #               the scale against which a product's error is judged, also after cancellation
         keep = []
         for step, op in enumerate(P["ops"]):
             o = {"op": op["op"], "status": None, "value": None, "props": None, "invoked": None}
             k = op["op"]
             del CALLS[:]
             model = None
+            absmodel = None
             desc = None
             res = None
             err = None
@@ -509,6 +519,7 @@ def execute(P, pre):
                 if k == "inst":
                     mat = gen_matrix(op["mat"], dtype)
                     model, desc = mat, "U%d" % op["cls"]
+                    absmodel = mat.abs()
                     res = classes[op["cls"]](mat, is_hermitian=op["flag"])
                 elif k == "inst1d":
                     res = classes[op["cls"]](torch.ones(3, dtype=tdtype(dtype)))
@@ -517,19 +528,24 @@ def execute(P, pre):
                 elif k == "dense":
                     mat = gen_matrix(op["mat"], dtype)
                     model, desc = mat, "M"
+                    absmodel = mat.abs()
                     res = LinearOperator.m(mat, is_hermitian=op["harg"])
                 elif k == "jac":
                     res, model, kk = make_jac(op["nout"], op["nin"], op["seed"])
                     keep.append(kk)
                     desc = "J"
+                    absmodel = model.abs()
                 elif k == "H":
                     A, MA, dA = pool[op["i"]]
                     model, desc = MA.transpose(-2, -1).conj(), "(%s).H" % dA
+                    absmodel = absp[op["i"]].transpose(-2, -1)
                     res = A.H
                 elif k in ("matmul", "add", "sub", "rsub"):
                     A, MA, dA = pool[op["i"]]
                     B, MB, dB = pool[op["j"]]
                     if op["valid"]:
+                        absmodel = torch.matmul(absp[op["i"]], absp[op["j"]]) if k == "matmul" else \
+                            absp[op["i"]] + absp[op["j"]]
                         if k == "matmul":
                             model, desc = torch.matmul(MA, MB), "(%s)@(%s)" % (dA, dB)
                         elif k == "add":
@@ -549,16 +565,19 @@ def execute(P, pre):
                 elif k in ("mul", "rmul"):
                     A, MA, dA = pool[op["i"]]
                     model, desc = MA * op["f"], "%s*(%s)" % (op["f"], dA)
+                    absmodel = absp[op["i"]] * abs(op["f"])
                     res = (A * op["f"]) if k == "mul" else (op["f"] * A)
                 elif k == "aah":
                     A, MA, dA = pool[op["i"]]
                     model, desc = torch.matmul(MA, MA.transpose(-2, -1).conj()), "(%s)@(%s).H[herm]" % (dA, dA)
+                    absmodel = torch.matmul(absp[op["i"]], absp[op["i"]].transpose(-2, -1))
                     res = A.matmul(A.H, is_hermitian=True)
                 elif k == "matmul_hermclaim":
                     A, MA, dA = pool[op["i"]]
                     B, MB, dB = pool[op["j"]]
                     prod = torch.matmul(MA, MB)
-                    if torch.allclose(prod, prod.transpose(-2, -1).conj(), rtol=1e-3, atol=1e-3):
+                    if prod.numel() == 0 or float((prod - prod.transpose(-2, -1).conj()).abs().max()) <= \
+                            1e-3 * float(prod.abs().max()):
                         op = dict(op, valid=True)      # the product happens to be Hermitian: nothing to reject
                         model, desc = prod, "(%s)@(%s)[herm]" % (dA, dB)
                     res = A.matmul(B, is_hermitian=True)
@@ -619,7 +638,17 @@ def execute(P, pre):
                     if not isinstance(res, torch.Tensor):
                         V("not_a_tensor", "returned %s" % type(res).__name__)
                     else:
-                        ok, why = close(res.detach(), model, dtype)
+                        aM = absp[op["i"]]
+                        if op["prod"] in ("rmv", "rmm"):
+                            aM = aM.transpose(-2, -1)
+                        if x is None:
+                            sc_ = float(aM.max()) if aM.numel() else 1.0
+                        else:
+                            xa = x.abs()
+                            bound = torch.matmul(aM.to(xa.dtype), xa.unsqueeze(-1)).squeeze(-1) if op["prod"] in ("mv", "rmv") \
+                                else torch.matmul(aM.to(xa.dtype), xa)
+                            sc_ = float(bound.max()) if bound.numel() else 1.0
+                        ok, why = close(res.detach(), model, dtype, scale=max(sc_, 1e-300))
                         o["value"] = res.detach().resolve_conj().cpu().numpy()
                         if not ok:
                             V("product_value", why)
@@ -646,6 +675,7 @@ def execute(P, pre):
                         V("shape_property", "operator shape %s, model %s" % (tuple(res.shape), tuple(model.shape)))
                     if k != "matmul_hermclaim":     # (the generator did not reserve a pool slot for it)
                         pool.append((res, model, desc))
+                        absp.append(absmodel if absmodel is not None else model.abs())
             else:
                 if err is None:
                     if k in ("matmul", "add", "sub", "rsub") and isinstance(res, LinearOperator):
